@@ -643,3 +643,17 @@ Definition stdin_copy_shape_ok : bool :=
 
 Lemma stdin_copy_shape_l : stdin_copy_shape_ok = true.
 Proof. vm_compute. reflexivity. Qed.
+
+(* ---------- generic command slots ---------- *)
+Definition flag_row_ok (r : flag_row) : bool := Nat.eqb (fl_nnames r) 1.
+
+Lemma flag_table_ok : forallb flag_row_ok flag_table = true
+  /\ existsb (fun r => String.eqb (fl_func r) "ListViewerPreferences" && String.eqb (fl_slot r) "BoolVal1") flag_table = true.
+Proof. vm_compute. split; reflexivity. Qed.
+
+Lemma flag_rows_l : forall r, In r flag_table -> fl_nnames r = 1%nat.
+Proof.
+  intros r Hin.
+  pose proof (proj1 (forallb_forall flag_row_ok flag_table) (proj1 flag_table_ok) r Hin) as H.
+  apply Nat.eqb_eq in H. exact H.
+Qed.
